@@ -248,6 +248,19 @@ def oracle_generations(rng):
             return 'a Problem mixing Variables of two index generations was built instead of rejected'
         except RuntimeError:
             pass
+        # the two generations may carry the SAME indices (both declared first after a clear): still two generations
+        cl.clear_variable_indices()
+        p_old = cl.Variable(shape=(2,), name='gp')
+        cl.clear_variable_indices()
+        q_new = cl.Variable(shape=(2,), name='gq')
+        for cons in ([p_old >= 1, q_new >= 2], [q_new >= 2, p_old >= 1], [p_old[0] + q_new[1] >= 1, p_old <= 5, q_new <= 5]):
+            try:
+                pr = cl.Problem(cl.MIN, p_old[0] + q_new[0], cons)
+                return ('a Problem mixing two index generations whose Variables carry the same indices %s was built (A is %s) instead of rejected'
+                        % (p_old.scalar_variable_ids, pr.A.shape))
+            except RuntimeError:
+                pass
+        b = q_new
         # same generation after the clear: fine
         c2 = cl.Variable(shape=(2,), name='gc')
         st = cl.Problem(cl.MIN, b[0] + c2[1], [b >= 1, c2 >= 2]).solve(verbose=False)
